@@ -5,6 +5,7 @@ simpath    path resolved through SimFS.open / OsShim.isfile (library-owned handl
 bytesio    io.BytesIO
 realpath   real file in a per-world temp directory, given as str or pathlib.Path
 realfile   real buffered file object (io.BufferedReader) on that file
+rawfile    real unbuffered file object (io.FileIO, open(..., buffering=0)): read(n) may legitimately return fewer bytes
 """
 import contextlib
 import io
@@ -17,7 +18,7 @@ from .simfs import SimFS
 from . import lib
 
 SIM_BACKENDS = ['simstream', 'simpath', 'bytesio']
-REAL_BACKENDS = ['realpath', 'realfile']
+REAL_BACKENDS = ['realpath', 'realfile', 'rawfile']
 ALL_BACKENDS = SIM_BACKENDS + REAL_BACKENDS
 
 
@@ -61,19 +62,23 @@ class Store(object):
                 f.write(self.fs.get(name))
         if backend == 'realpath':
             return pathlib.Path(path) if as_pathlib else path
-        if backend == 'realfile':
-            f = open(path, 'rb')
+        if backend in ('realfile', 'rawfile'):
+            f = open(path, 'rb') if backend == 'realfile' else open(path, 'rb', buffering=0)
             self._open_real.append(f)
             return f
         raise ValueError(backend)
 
-    def cleanup(self):
+    def close_real(self):
+        """Closes the real file objects handed out so far (they are the caller's, i.e. ours)."""
         for f in self._open_real:
             try:
                 f.close()
             except Exception:
                 pass
         self._open_real = []
+
+    def cleanup(self):
+        self.close_real()
         if self.tmp is not None:
             shutil.rmtree(self.tmp, ignore_errors=True)
             self.tmp = None
